@@ -1,0 +1,9 @@
+//go:build !verif
+
+// Package verifhook provides named hook points for external runtime-verification
+// harnesses. Without the "verif" build tag every hook is an empty function that
+// the compiler inlines away.
+package verifhook
+
+// At marks a hook point. It does nothing unless built with the "verif" tag.
+func At(string) {}
